@@ -4,6 +4,7 @@ import SideVerif.Drive.C01
 import SideVerif.Drive.C07
 import SideVerif.Drive.C16
 import SideVerif.Drive.C18
+import SideVerif.Drive.C13
 open Lean
 namespace SideVerif.Drive
 
@@ -17,6 +18,7 @@ def dispatch (op : String) (j : Json) : Except String Json :=
   | "c07.fn" => c07Fn j
   | "c16" => c16 j
   | "c18" => c18 j
+  | "c13" => c13 j
   | "ping" => pure (Json.str "pong")
   | _ => throw s!"unknown op {op}"
 
